@@ -3,7 +3,7 @@
 (* terminate in the result the outcome function predicts, with an exit status in {0, 1, 2}.   *)
 EXTENDS Cli
 Pairs == 1..2
-AllInv == DiffInvocations(Pairs, Pairs) \cup ErrorInvocations \cup TransInvocations(Pairs) \cup BigInvocations(9) \cup EdgeInvocations(10..11) \cup InPlaceInvocations({2})
+AllInv == DiffInvocations(Pairs, Pairs) \cup ErrorInvocations \cup TransInvocations(Pairs) \cup BigInvocations(9) \cup EdgeInvocations(10..11) \cup InPlaceInvocations({2}) \cup FifoInvocations({2})
 Init == \E i \in AllInv : CliInit(i)
 Spec == Init /\ [][CliNext]_cvars
 Terminates == <>(phase = "done")
